@@ -48,7 +48,7 @@ func aggGuardSpec() *guardSpec {
 func init() {
 	register(&propDef{
 		ID:          "C13",
-		Explanation: "Structural necessary conditions of thread-safety of the aggregation process, decided on SSA with an interprocedural, context-sensitive must-hold lockset: (1) guarded-by: every access to AggregationProcess.flowKeyRecordMap / expirePriorityQueue / workerList (loads, map lookups/updates/deletes, ranges, element stores, the address handed to container/heap or to pointer-receiver queue methods) and every invocation of a user FlowKeyRecordMapCallBack happens with AggregationProcess.mutex held in the mode the access needs (W for mutation, heap operations and callbacks; R suffices for pure reads), in every calling context; (2) balanced: every exit of every function in pkg/intermediate leaves the lockset as at entry; (3) single critical section: no operation releases the mutex and acquires it again (check-then-act / unlock around a callback), back edges excluded; (4) no reference to guarded state is returned. Not decided: sequential correctness of each operation (C05-C07), races on caller-held objects, fairness. Later additions: the clock read that deadlines are computed from needs the lock; no TryLock on the process mutex; setters of slice-valued elements replace the slice (query results are handed out by reference); a worker hands every received message to its job. Round-five additions: methods of lock-bearing structs have pointer receivers (a value receiver locks a copy).",
+		Explanation: "Structural necessary conditions of thread-safety of the aggregation process, decided on SSA with an interprocedural, context-sensitive must-hold lockset: (1) guarded-by: every access to AggregationProcess.flowKeyRecordMap / expirePriorityQueue / workerList (loads, map lookups/updates/deletes, ranges, element stores, the address handed to container/heap or to pointer-receiver queue methods) and every invocation of a user FlowKeyRecordMapCallBack happens with AggregationProcess.mutex held in the mode the access needs (W for mutation, heap operations and callbacks; R suffices for pure reads), in every calling context; (2) balanced: every exit of every function in pkg/intermediate leaves the lockset as at entry; (3) single critical section: no operation releases the mutex and acquires it again (check-then-act / unlock around a callback), back edges excluded; (4) no reference to guarded state is returned. Not decided: sequential correctness of each operation (C05-C07), races on caller-held objects, fairness. Later additions: the clock read that deadlines are computed from needs the lock; no TryLock on the process mutex; setters of slice-valued elements replace the slice (query results are handed out by reference); a worker hands every received message to its job. Round-five additions: methods of lock-bearing structs have pointer receivers (a value receiver locks a copy). Round-six additions: GetElementMap returns a map made by that call (GetRecords hands it out after the lock is released).",
 		Assume: []string{"sync.RWMutex / Go memory model semantics", "lock identity is (struct type, field): a function manipulates one AggregationProcess at a time (its receiver)",
 			"dynamic calls are resolved to address-taken repo functions of identical signature; functions whose value escapes to non-repo code are analysed with the empty lockset"},
 		Run: runC13,
@@ -56,6 +56,7 @@ func init() {
 }
 
 func runC13(p *Prog, r *Report, tier string) {
+	checkElementMapFresh(p, r, "R-OWNER.snapshot-fresh")
 	gs := aggGuardSpec()
 	_, accs := checkGuardedBy(p, r, gs, "R-LOCK", "pkg/intermediate")
 	if len(accs) < 10 {
@@ -151,5 +152,37 @@ func checkWorkerAppliesEveryMessage(p *Prog, r *Report, rule string) {
 	}
 	if n == 0 {
 		r.Undecided(rule, "anchor: worker goroutine calling its job", "pkg/intermediate/worker.go", "not found")
+	}
+}
+
+// checkElementMapFresh: GetRecords hands the result of GetElementMap to its caller, who reads it after the process mutex
+// is released; it is a snapshot only if every call builds a new map (a map cached in the record is rewritten by the
+// next query while earlier callers still read it).
+func checkElementMapFresh(p *Prog, r *Report, rule string) {
+	f := p.Fn("(*pkg/entities.baseRecord).GetElementMap")
+	if f == nil {
+		r.Undecided(rule, "anchor: (*baseRecord).GetElementMap", "pkg/entities/record.go", "not found")
+		return
+	}
+	n := 0
+	eachInstr(f, func(in ssa.Instruction) {
+		rt, ok := in.(*ssa.Return)
+		if !ok || len(rt.Results) == 0 {
+			return
+		}
+		n++
+		bad := ""
+		for _, lf := range phiLeaves(rt.Results[0], 6) {
+			o := p.origin(lf)
+			mm, isMake := o.(*ssa.MakeMap)
+			if !isMake || mm.Parent() != f {
+				bad = "the returned map is not a map made by this call (" + o.Name() + ")"
+			}
+		}
+		r.Check(bad == "", rule, fnKey(f)+": returns a new map", p.instrPos(in), "make(map[string]interface{}) of this call",
+			bad+": query results handed out by GetRecords are rewritten by later queries and read without the lock", true)
+	})
+	if n == 0 {
+		r.Undecided(rule, fnKey(f)+": returns", p.pos(f.Pos()), "no return found")
 	}
 }
